@@ -1,6 +1,8 @@
 import OmplModel.Props.C03
 #print axioms OmplModel.Props.C03.solve_status_truthful
-#print axioms OmplModel.Props.C03.solve_never_empty_path_partial
+#print axioms OmplModel.Props.C03.solve_path_nonempty
+#print axioms OmplModel.Props.C03.solve_never_empty_path
+#print axioms OmplModel.Props.C03.lastGoalMotion_never_dangles
 #print axioms OmplModel.Props.C03.setProblemDefinition_keeps_core
 #print axioms OmplModel.Props.C03.resume_monotone
 #print axioms OmplModel.Props.C03.clear_forgets
